@@ -34,6 +34,28 @@ def with_closures(F, body):
     return [body] + F.closures_of(body)
 
 
+def with_private_callees(F, body, depth=3):
+    """the body, its closures and - transitively - the module-private functions it calls (helpers split off for readability belong to it)"""
+    out, seen, work = [], set(), [(body, 0)]
+    while work:
+        b, d = work.pop()
+        if b.id in seen:
+            continue
+        seen.add(b.id)
+        out.append(b)
+        for c in F.closures_of(b):
+            work.append((c, d))
+        if d >= depth:
+            continue
+        for i, t in b.calls():
+            rid = lib.callee_of(t)[0]
+            cb = F.bodies.get(rid)
+            if cb is not None and cb.pkg == body.pkg and str(cb.d.get("vis", "")).startswith("Restricted") and "DefId(0:0 " not in str(cb.d.get("vis", "")):
+                work.append((cb, d + 1))
+        # function items passed as values (fn pointers to private helpers) are not followed: only direct calls
+    return out
+
+
 def zero_test_dominates(b, blk, ty):
     for j, s in b.stmts():
         rv = s.get("rv", {})
